@@ -11,13 +11,13 @@
 #include <string.h>
 #include <stdlib.h>
 
-typedef struct { const char *path; struct { int m; int code; } h[8]; } rdef_t;
+typedef struct { const char *path; struct { int m; int code; } h[8]; const char *segs; } rdef_t;
 static const rdef_t RES[] = {
   { "a",   { {1, 69}, {3, 68}, {0, 0} } },
   { "a/b", { {1, 69}, {0, 0} } },
   { "q",   { {1, 0}, {2, 65}, {0, 0} } },               /* GET handler sets nothing */
   { "e",   { {1, 163}, {3, 128}, {0, 0} } },            /* handlers answer 5.03 / 4.00 */
-  { "x y", { {1, 69}, {0, 0} } },                       /* needs escaping in the path string */
+  { "x%20y", { {1, 69}, {0, 0} }, "x y" },              /* a segment that needs escaping: registered in escaped form */
   { "d",   { {4, 66}, {5, 69}, {6, 68}, {7, 68}, {2, 68}, {0, 0} } },
   { "a//c", { {1, 69}, {0, 0} } },                      /* empty interior segment */
   { NULL,  { {0, 0} } }
@@ -101,7 +101,7 @@ static void table_json(void) {
   int i, j, first = 1;
   fprintf(sim_trace, "\"res\":[");
   for (i = 0; table >= 1 && RES[i].path; i++) {
-    const char *p = RES[i].path, *sl;
+    const char *p = RES[i].segs ? RES[i].segs : RES[i].path, *sl;
     fprintf(sim_trace, "%s{\"segs\":[", first ? "" : ",");
     first = 0;
     /* path as segment list */
